@@ -61,6 +61,10 @@ CLASSES = {
                                      "src": ("multi_agent.multi_agent_trajectory_exporter", "MultiAgentTrajectoryExporter")},
     "MultiAgentTrajectoryTriplet": {"fields": {"previous_state": ("ref", "State"), "joint_action": ("ref", "opaque"), "next_state": ("ref", "State")},
                                     "bases": [], "src": ("multi_agent.multi_agent_trajectory_exporter", "MultiAgentTrajectoryTriplet")},
+    "set_pairs": {"fields": {"items": ("seq", ("tuple", ("str", "str")))}, "bases": [], "lib": True},
+    "Precondition": {"fields": {"binary_operator": "str", "operands": ("ref", "opaque"), "equality_preconditions": ("ref", "set_pairs"),
+                                "inequality_preconditions": ("ref", "set_pairs")}, "bases": [],
+                     "src": ("models.pddl_precondition", "Precondition")},
     "ENHSPParser": {"fields": {}, "bases": [], "src": ("exporters.enhsp_output_parser", "ENHSPParser")},
     "MetricFFParser": {"fields": {}, "bases": [], "src": ("exporters.ff_output_parser", "MetricFFParser")},
 }
